@@ -11,7 +11,7 @@ LEVEL = "exploration"
 FLAVORS = ["asan"]
 RULE = ("12-tick histories over 3-5 cgroups (usage, file/anon split, memory.min/high/max, swap limits and usage up a two-level hierarchy, "
         "`some` pressure averages and growing totals), every senpai argument randomised, both modes, with/without memory.reclaim and "
-        "memory.high.tmp, cgroups removed / re-created between ticks, limits changed behind senpai's back, senpai's own writes failing (EAGAIN/EBUSY/EINTR/short); every write(2) of the plugin "
+        "memory.high.tmp, cgroups removed / re-created between ticks and removed between two file accesses of a tick (incl. the first, probing tick), limits changed behind senpai's back, senpai's own writes failing (EAGAIN/EBUSY/EINTR/short); every write(2) of the plugin "
         "is checked: target file in {memory.high, memory.high.tmp, memory.reclaim} of a cgroup matched by `cgroup` (or vm.swappiness when "
         "modulate_swappiness, restored by the last write of the tick); classic mode: value == memory.current (start/restart) or 4 KiB "
         "aligned, > floor-4096 and <= ceiling unless floor > ceiling; the first write to a new incarnation is a start value; immediate "
@@ -79,8 +79,22 @@ def cases(seed, tier):
         nticks = 12
         ticks = []
         live = set(rels)
+        # a cgroup vanishing between two consecutive file accesses of a tick (often the very first tick, while senpai
+        # probes what the kernel supports): it must be dropped, and nothing learnt from it may stick to the others
+        vanish = None
+        if rng.random() < 0.3:
+            tops = sorted(r for r in rels if r.count("/") == 1)
+            # tick-0 access sequence: 3 /proc files, one directory open per matched cgroup, then per cgroup memory.current,
+            # memory.high.tmp, ...: aim half of the faults at the first probed cgroup's first few accesses
+            k0 = 3 + len(rels)
+            vanish = {"tick": rng.choice([0, 0, 0, 1, 3]), "k": rng.choice([k0, k0 + 1, k0 + 2]) if rng.random() < 0.5 else rng.randint(0, 12 + 4 * len(rels)),
+                      "cg": tops[0] if rng.random() < 0.6 else rng.choice(tops)}
         for t in range(nticks):
             ops = []
+            if vanish and t == vanish["tick"] + 1:
+                for q in list(live):
+                    if q == vanish["cg"] or q.startswith(vanish["cg"] + "/"):
+                        live.discard(q)
             if t > 0:
                 for r in rels:
                     if r not in live:
@@ -124,7 +138,9 @@ def cases(seed, tier):
                 fn = "memory.reclaim" if reclaim else ("memory.high.tmp" if tmp else "memory.high")
             scn["write_faults"] = [dict(file=fn, **rng.choice([{"errno": "EAGAIN"}, {"errno": "EBUSY"}, {"errno": "EINTR", "count": 2},
                                                                {"errno": "EAGAIN", "count": 3}, {"short": True}]))]
-        yield core.Case(cid, [scn], {"args": args, "immediate": immediate, "tmp": tmp, "reclaim": reclaim})
+        if vanish:
+            scn["access_faults"] = [{"tick": vanish["tick"], "k": vanish["k"], "ops": [{"op": "rm", "cg": vanish["cg"]}]}]
+        yield core.Case(cid, [scn], {"args": args, "immediate": immediate, "tmp": tmp, "reclaim": reclaim, "vanish": vanish})
 
 
 def floor_ceiling(view, rel, args, tmp):
@@ -275,6 +291,11 @@ def judge(case, results):
                             v.count("swap_guard_evaluated")
                             if u > thr + F(1, 10**6):
                                 v.bad("reclaim-with-swap-depleted", "", "tick %d cgroup %s: reclaim although effective swap utilisation %.4f >= swap_threshold %s" % (ti, rel, float(u), thr))
+        if m.get("vanish") and m["vanish"]["tick"] == ti:
+            if any(e.get("ev") == "access_fault" for e in evs):
+                v.count("vanished_mid_tick")
+                pending_poke.pop(m["vanish"]["cg"], None)
+                w.apply([{"op": "rm", "cg": m["vanish"]["cg"]}])  # (a fault whose access index was never reached does not happen)
         for rel, e in pending_poke.items():
             v.bad("poke-not-reset", "", "tick %d cgroup %s: memory.high poke %r not reset to max within the tick" % (ti, rel, e["data"]))
     v.count("writes_judged", judged)
